@@ -66,3 +66,13 @@ func VerifBwCap(n int, interval int, key string) (ok bool, restarts int, finLen 
 	data := bw.finish()
 	return ok, restarts, len(data), int(data[len(data)-2])<<8 | int(data[len(data)-1])
 }
+
+// VerifLogSpan returns where the log blocks of a table start and end, and the size of the file header.
+func VerifLogSpan(r *Reader) (present bool, start, end uint64, hdr int) {
+	o := r.offsets[blockTypeLog]
+	end = r.size
+	if o.IndexOffset > 0 {
+		end = o.IndexOffset
+	}
+	return o.Present, o.Offset, end, headerSize(r.version)
+}
